@@ -59,7 +59,20 @@ class _Gen:
             ("not", 0.7 * o["unary"]),
             ("neg", 0.3 * o["unary"]), ("member", 0.4 * o["extras"]), ("isnone", 0.3 * o["extras"]),
             ("ifexp", 0.4 * o["extras"]), ("kwcall", 0.4 * o["extras"]),
+            # second session: expression forms the front end leaves to Python
+            ("listidx", 0.25 * o["extras"]), ("walrus", 0.2 * o["extras"]), ("fstr", 0.15 * o["extras"]),
+            ("lambda", 0.15 * o["extras"]), ("listcomp", 0.15 * o["extras"]),
         ])
+        if kind == "listidx":
+            return "[%s, %s][%d]" % (self.expr(depth + 1), self.expr(depth + 1), r.randint(0, 1))
+        if kind == "walrus":
+            return "(%s := %s)" % (r.choice(LOCALS), self.expr(depth + 1))
+        if kind == "fstr":
+            return "len(f'{%s}')" % self.ext(3)
+        if kind == "lambda":
+            return "(lambda v: (v + %s))(%s)" % (self.ext(3), self.atom())
+        if kind == "listcomp":
+            return "sum([(v + %s) for v in (1, 2)])" % self.ext(3)
         if kind == "neg":
             return "(-%s)" % self.atom()
         if kind == "member":
@@ -186,7 +199,14 @@ class _Gen:
                 a_, b_ = r.sample(LOCALS, 2)
                 self.emit(ind, "%s, %s = %s, %s" % (a_, b_, self.expr(2), self.expr(2)))
         elif kind == "assign":
-            self.emit(ind, "%s = %s" % (r.choice(LOCALS), self.expr()))
+            if o["extras"] and r.chance(0.06):
+                a_, b_ = r.sample(LOCALS, 2)
+                self.emit(ind, "%s = %s = %s" % (a_, b_, self.expr()))          # chained assignment
+            elif o["extras"] and r.chance(0.04):
+                a_, b_ = r.sample(LOCALS, 2)
+                self.emit(ind, "%s, *%s = (%s, %s, %s)" % (a_, b_, self.expr(2), self.atom(), self.atom()))
+            else:
+                self.emit(ind, "%s = %s" % (r.choice(LOCALS), self.expr()))
         elif kind == "aug":
             self.in_aug += 1
             op = r.choice(["+", "-", "*"])
